@@ -31,6 +31,16 @@ CHECKS = {
             "save/restore is paired in a finally. Byte equality of whole outputs follows only under the assumption "
             "that third-party libraries are deterministic; that part is NOT decided.",
             "DESIGN.md section 4 C07, section 3 E3"),
+    "C20": ("exception-discipline analysis: handler-cannot-raise rules on the AST, raise-set (frozen table + "
+            "explicit-raise scan of parser sources) subset-of caught-set, guard/ordering check in main",
+            "Static analysis of error discipline: (R20a) every except clause of each build_tree_handling_errors returns "
+            "on all paths a message naming the file and cannot itself raise (no format spec on the exception object, "
+            "attributes read exist on the caught class); (R20b) the caught classes cover the raise-set of the parser "
+            "entry the loader calls, including UnicodeDecodeError for text-mode reads; (R20c) main tests each result "
+            "with isinstance(str) before use, writes it to stderr and returns non-zero before any diff output, for "
+            "both file positions. Which byte strings a third-party parser rejects and implicit exceptions raised "
+            "inside parsers (AttributeError, RecursionError) are NOT decided.",
+            "DESIGN.md section 4 C20, section 3 E8"),
 }
 
 NOT_YET = "check not built yet in this session (static rules designed in DESIGN.md; will be claimed once the rule runs clean)"
